@@ -38,7 +38,7 @@ func VHAlgebra() {
 	if !v.Bool("alias") {
 		b = vSetOnly()
 	}
-	sets.VAlgStep(sets.VAlg{A: a, B: b, Hash: true,
+	sets.VAlgStep(sets.VAlg{A: a, B: b, Inv: func(c any) { v.Assert(c.(*Set[int]).items != nil, "inv-map-nil") }, Has: func(c any, x int) bool { return c.(*Set[int]).Contains(x) }, Hash: true,
 		Apply: func(op int) any {
 			switch op {
 			case 0:
